@@ -72,15 +72,17 @@ PLANS = {
                        "sorted-by-field-id fields; generate() resets the state so its result is a function of (schema, binding, context)",
     },
     "C05": {
-        "targets": ["fcp_dbc.dbc_writer:_make_signals", "fcp.specs.v2:FcpV2.get_matching_impls", "fcp_dbc.dbc_writer:write_dbc"] + ENCODING,
+        "targets": ["fcp_dbc.dbc_writer:_make_signals", "fcp.specs.v2:FcpV2.get_matching_impls", "fcp_dbc.dbc_writer:write_dbc",
+                    "fcp_dbc.generator:Generator.generate"] + ENCODING,
         "native": "dbc",
         "trusted": [
             "ASSUMED (not proved): cantools Signal/Message objects and Database.as_dbc_string carry exactly the constructor arguments, and an "
             "independent DBC reader recovers them (assumed contracts ext:cantools...Signal, ...BaseConversion.factory)",
             "write_dbc IS under contract (per-bus grouping in order of first use, frame id, message name, signal count; collections.defaultdict is "
             "modelled as insertion-ordered keys + one str->list map per record field); the signal-level facts of each message are _make_signals' "
-            "postcondition, composed per message on paper; fcp_dbc Generator.generate (dict records around the texts) is not under contract; "
-            "only the native replay exercises it",
+            "postcondition, composed per message on paper; fcp_dbc Generator.generate IS under contract (one `file` record per bus text of "
+            "write_dbc, same order, same bus name, text unchanged; the record's path is an opaque pathlib value about which nothing is claimed; "
+            "ctx.get is assumed effect-free)",
             "math.ceil(x / 8) on exact rationals; str.replace is one fixed function (same term in code and spec)",
         ],
         "explanation": "the repo-side half of the statement: _make_signals maps layout piece i to a signal with the piece's position (+7 for "
@@ -95,10 +97,12 @@ PLANS = {
                     "fcp.specs.type:Type.get_length", "fcp.specs.type:ArrayType.get_length", "fcp.specs.type:DynamicArrayType.get_length",
                     "fcp.specs.type:OptionalType.get_length", "fcp.specs.type:NumericType.get_length", "lemmas:sum_pointwise",
                     "fcp_can_c.generator:Generator.register_checks.check_impl_size",
-                    "fcp.codegen:GeneratorManager.generate", "fcp.codegen:CodeGenerator.gen"],
+                    "fcp.codegen:GeneratorManager.generate", "fcp.codegen:CodeGenerator.gen",
+                    "fcp_dbc.generator:Generator.generate"],
         "native": "dbc",
         "trusted": [
-            "fcp_dbc Generator.generate (one file record per (bus, text) pair returned by write_dbc, after unwrap()) is not under contract",
+            "fcp_dbc Generator.generate is under contract: it returns records only if write_dbc returned Ok, i.e. only if every CAN binding "
+            "fits (postcondition impl_fits for every binding); otherwise it raises",
             "the C plug-in's check_impl_size is under contract for structs whose fields are numeric or arrays of numerics (precondition); "
             "outside it get_length() raises instead of returning an error (known finding KF-F16), and the rule measures the declared "
             "widths of the struct's own fields, not the packed layout of a binding",
